@@ -93,6 +93,13 @@ impl BytesMut {
         requires n <= old(self)@.len()
         ensures r@ == old(self)@.take(n as int), final(self)@ == old(self)@.skip(n as int)
     { unimplemented!() }
+    /// `<[u8]>::split_at_mut` through DerefMut: two disjoint mutable views whose final contents make up the buffer's final contents
+    #[verifier::external_body]
+    pub fn split_at_mut(&mut self, mid: usize) -> (r: (&mut [u8], &mut [u8]))
+        requires mid <= old(self)@.len()
+        ensures r.0@ == old(self)@.take(mid as int), r.1@ == old(self)@.skip(mid as int),
+            final(self)@ == final(r.0)@ + final(r.1)@
+    { unimplemented!() }
     #[verifier::external_body]
     pub fn freeze(self) -> (r: Bytes) ensures r@ == self@ { unimplemented!() }
     #[verifier::external_body]
